@@ -385,9 +385,26 @@ def cart(lists):
     return out
 
 
-def combination(b, shape):
+def combination(b, shape, grown=()):
+    """built by the real constructor; `grown`: (list index, how many items are appended to that list afterwards) -- the helper
+    keeps the caller's lists, so what it enumerates is their content at the time of the enumeration"""
     items = [b.list([b.int(f"i{j}_{k}") for k in range(n)]) for j, n in enumerate(shape)]
-    return b.obj(DC, _items=b.list(items))
+    dc = b.new(DC, b.list(items))
+    for j, extra in grown:
+        for k in range(extra):
+            b.call(b.getattr(items[j], "append"), b.int(f"late{j}_{k}"))
+    return dc
+
+
+GROWN = [((2, 3), ((1, 1),)), ((1, 1), ((0, 2),)), ((0, 0), ((0, 1), (1, 2)))]
+
+
+def _dc_scenarios(c):
+    for sh in SHAPES:
+        c.scenario("shape" + "x".join(map(str, sh)), (lambda sh: lambda b: dict(args=[combination(b, sh)]))(sh))
+    for sh, gr in GROWN:
+        c.scenario("shape" + "x".join(map(str, sh)) + "[lists-extended-after-construction]",
+                   (lambda sh, gr: lambda b: dict(args=[combination(b, sh, gr)]))(sh, gr))
 
 
 SHAPES = [(), (0,), (1,), (3,), (2, 3), (3, 1), (2, 0), (2, 2, 2), (1, 2, 3)]
@@ -396,8 +413,7 @@ SHAPES = [(), (0,), (1,), (3,), (2, 3), (3, 1), (2, 0), (2, 2, 2), (1, 2, 3)]
 @contract(DC + ".items", "C20", name="DataCombination.items")
 def _(c):
     c.bound = "at most 3 item lists of at most 3 items (values symbolic)"
-    for sh in SHAPES:
-        c.scenario("shape" + "x".join(map(str, sh)), (lambda sh: lambda b: dict(args=[combination(b, sh)]))(sh))
+    _dc_scenarios(c)
     c.ensures("[k for k, v in result] == cart([list(range(len(l))) for l in self._items])", "index-tuples-are-the-product")
     c.ensures("[v for k, v in result] == cart([list(l) for l in self._items])", "values-are-the-product")
     c.ensures("all([v == tuple([self._items[j][k[j]] for j in range(len(self._items))]) for k, v in result])", "indices-match-values")
@@ -408,8 +424,7 @@ def _(c):
 @contract(DC + ".keys", "C20", name="DataCombination.keys")
 def _(c):
     c.bound = "at most 3 item lists of at most 3 items (values symbolic)"
-    for sh in SHAPES:
-        c.scenario("shape" + "x".join(map(str, sh)), (lambda sh: lambda b: dict(args=[combination(b, sh)]))(sh))
+    _dc_scenarios(c)
     c.ensures("list(result) == cart([list(range(len(l))) for l in self._items])", "index-tuples-are-the-product")
     c.no_raise()
     c.modifies()
@@ -418,8 +433,7 @@ def _(c):
 @contract(DC + ".values", "C20", name="DataCombination.values")
 def _(c):
     c.bound = "at most 3 item lists of at most 3 items (values symbolic)"
-    for sh in SHAPES:
-        c.scenario("shape" + "x".join(map(str, sh)), (lambda sh: lambda b: dict(args=[combination(b, sh)]))(sh))
+    _dc_scenarios(c)
     c.ensures("list(result) == cart([list(l) for l in self._items])", "values-are-the-product")
     c.no_raise()
     c.modifies()
